@@ -44,6 +44,8 @@ AlphaFull ==
   \cup Ref({<<"prev", 0>>, <<"prev", 5>>, <<"next", 0>>, <<"next", -3>>, <<"ext", 5>>, <<"mod", -3>>, <<"func", 0>>, <<"func", 5>>})
   \cup LRef({<<1, 0, 0>>, <<2, 0, 7>>, <<3, 1, 0>>, <<1, 2, -4>>})
   \cup Expr({"i8", "i16", "i32", "i64", "f", "d", "ld"}) \cup {Proto}
+AlphaWide ==      \* every element type once, the three lengths for three sizes, everything else as in AlphaFull
+  Data(Types, {1}) \cup Data({"i8", "i16", "ld"}, {0, 3}) \cup (AlphaFull \ Data(Types, {0, 1, 3}))
 AlphaMid ==
   {It("data", nm, t, n, "", 0, 0, 0) : nm \in BOOLEAN, t \in {"i8"}, n \in {1}}
   \cup {It("data", nm, "i16", 3, "", 0, 0, 0) : nm \in BOOLEAN} \cup {It("data", nm, "i64", 0, "", 0, 0, 0) : nm \in BOOLEAN}
@@ -56,8 +58,8 @@ AlphaSmall ==
 
 Stage(a, mx, mn) == [alpha |-> a, maxLen |-> mx, minEmit |-> mn]
 PlanQuick == <<Stage(AlphaFull, 2, 1), Stage(AlphaMid, 3, 3)>>
-PlanFull3 == <<Stage(AlphaFull, 3, 3)>>
-PlanDeep == <<Stage(AlphaMid, 4, 4), Stage(AlphaSmall, 6, 5)>>
+PlanWide3 == <<Stage(AlphaWide, 3, 3)>>
+PlanDeep == <<Stage(AlphaMid, 4, 4), Stage(AlphaSmall, 5, 4)>>
 
 (* ------------------------------ layout ------------------------------------------------------------ *)
 IsData(it) == it.k # "proto"
@@ -114,7 +116,8 @@ LayoutSane ==
 (* ------------------------------ enumeration -------------------------------------------------------- *)
 Part == IF "PART" \in DOMAIN IOEnv THEN atoi(IOEnv.PART) ELSE 0
 NParts == IF "NPARTS" \in DOMAIN IOEnv THEN atoi(IOEnv.NPARTS) ELSE 1
-Key(it) == ItemLen(it) * 7 + (IF it.nm THEN 3 ELSE 0) + it.d + it.l1 * 5 + it.n
+KindNo(it) == CASE it.k = "data" -> 0 [] it.k = "bss" -> 1 [] it.k = "ref" -> 2 [] it.k = "lref" -> 3 [] it.k = "expr" -> 4 [] OTHER -> 5
+Key(it) == ItemLen(it) * 7 + (IF it.nm THEN 3 ELSE 0) + it.d + 16 + it.l1 * 5 + it.n + KindNo(it) * 13
 InPart(s) == Part = 0 \/ Len(s) = 0 \/ (Key(s[1]) % NParts) + 1 = Part
 
 Init == stage \in 1..Len(Plan) /\ items = <<>>
